@@ -122,13 +122,41 @@ impl VotingBuilder {
     pub fn get_plutus_witnesses(&self) -> PlutusWitnesses {
         let tag = RedeemerTag::new_vote();
         let mut scripts = PlutusWitnesses::new();
-        for (i, (_, voter_votes)) in self.votes.iter().enumerate() {
+        for (i, (_, voter_votes)) in self.in_ledger_order().into_iter().enumerate() {
             if let Some(ScriptWitnessType::PlutusScriptWitness(s)) = &voter_votes.script_witness {
                 let index = BigNum::from(i);
                 scripts.add(&s.clone_with_redeemer_index_and_tag(&index, &tag));
             }
         }
         scripts
+    }
+
+    // The ledger keeps voting procedures in a map ordered by voter (committee members, then DReps, then
+    // pools; within committee members and DReps script-hash before key-hash credentials, then the hash)
+    // and a voting redeemer indexes that order. The map of this builder orders key hashes first.
+    fn in_ledger_order(&self) -> Vec<(&Voter, &VoterVotes)> {
+        fn ledger_order_key(voter: &Voter) -> (u8, u8, Vec<u8>) {
+            fn cred_key(cred: &Credential) -> (u8, Vec<u8>) {
+                match &cred.0 {
+                    CredType::Script(hash) => (0, hash.to_bytes()),
+                    CredType::Key(hash) => (1, hash.to_bytes()),
+                }
+            }
+            match &voter.0 {
+                VoterEnum::ConstitutionalCommitteeHotCred(cred) => {
+                    let (kind, hash) = cred_key(cred);
+                    (0, kind, hash)
+                }
+                VoterEnum::DRep(cred) => {
+                    let (kind, hash) = cred_key(cred);
+                    (1, kind, hash)
+                }
+                VoterEnum::StakingPool(hash) => (2, 1, hash.to_bytes()),
+            }
+        }
+        let mut entries: Vec<_> = self.votes.iter().collect();
+        entries.sort_by_key(|(voter, _)| ledger_order_key(voter));
+        entries
     }
 
     pub fn get_ref_inputs(&self) -> TransactionInputs {
